@@ -37,6 +37,9 @@ def run_world(world, idx=0, timeout=180, hashseed='0', extra_env=None, keep=Fals
     trace = os.path.join(d, 'trace.jsonl')
     open(trace, 'w').close()
     args = ['--path', d, '--tests-pattern', '^%s%s$' % (mod, r'(_b\d+)?' if world.get('broken') else '')] + list(world.get('options', []))
+    if world.get('select_none'):
+        # filters that leave nothing to run (-t / --layer matching nothing): the model is handed the world without tests
+        args += {'-t': ['-t', 'zz_no_such_test'], '--layer': ['--layer', 'zz_no_such_layer']}[world['select_none']]
     spec = {'dir': d, 'args': args, 'defaults': world.get('defaults', [])}
     if 'script_parts' in world:
         spec['script_parts'] = world['script_parts']
